@@ -611,9 +611,13 @@ class DiscoveryComputation(MessagePassingComputation):
 
     def _on_computation_removed(self, _: DiscoveryName,
                                 msg: UnPublishComputationMessage):
-        self.discovery.unregister_computation(
-            msg.computation, msg.agent, publish=False)
-        pass
+        try:
+            self.discovery.unregister_computation(
+                msg.computation, msg.agent, publish=False)
+        except ValueError:
+            # Stale notification: since then, the computation has been
+            # registered on another agent (e.g. locally).
+            pass
 
     def _on_replica_publish(self, _, msg: PublishReplicaMessage):
         if msg.publish:
